@@ -26,6 +26,12 @@
    Set-outputs dispatch: DfBase.set_outputs wires the Output node, completes it, and calls
    parent_op._set_out_types(types) on whatever operation the container node holds (DFG, Case, TailLoop).
 
+   Incomplete operations are placeholders that are always overwritten before serialisation: Output [], DFG ins [],
+   Case ins [], Conditional rows others [] s, ExtOp [] [], CallIndirect [] [] 0 (no out ports yet), and for an
+   incomplete ops.TailLoop(just_inputs, rest) (whose _just_outputs is None: it has no output row yet)
+   `TailLoop (just_inputs ++ rest) [] [] (len just_inputs)`: the same input row, no outputs, and the split point kept
+   in the (not yet meaningful) control-type slot; _set_out_types recovers just_inputs / rest from it.
+
    The interpreter of harness/progs.py keeps ONE wire dictionary and ONE statement dictionary for the whole program,
    including separately built sub-programs: the environment is threaded through exec_prog as well (a wire bound
    inside an inserted program keeps naming the node index of the INNER Hugr, as the OutPort object does).
@@ -63,12 +69,14 @@ Definition set_out_types2 (tys : list tyinfo) (o : vop) (outs : row) : res vop :
   match o with
   | DFG i _ => Ok (DFG i outs)
   | Case i _ => Ok (Case i outs)
-  | TailLoop ji _ rest _ =>
-      (* (sum_, other) = get_first_sum(types); just_ins, just_outs = sum_.variant_rows; assert just_ins == just_inputs *)
+  | TailLoop jall _ _ n =>
+      (* the INCOMPLETE TailLoop op (see TLoop below): just_inputs = firstn n jall, rest = skipn n jall.
+         (sum_, other) = get_first_sum(types); just_ins, just_outs = sum_.variant_rows; assert just_ins == just_inputs *)
+      let ji := firstn (N.to_nat n) jall in
       match outs with
       | t :: _ =>
           match nthN tys t with
-          | Some (TSum _ [a; b]) => if row_eqb a ji then Ok (TailLoop ji b rest t) else Err EIncomplete
+          | Some (TSum _ [a; b]) => if row_eqb a ji then Ok (TailLoop ji b (skipn (N.to_nat n) jall) t) else Err EIncomplete
           | _ => Err EIncomplete
           end
       | [] => Err EIncomplete
@@ -200,7 +208,7 @@ Section Exec2.
         rw <- get_wires e rest ;;
         jt <- wire_types st jw ;;
         rt <- wire_types st rw ;;
-        d <- add_node st (TailLoop jt [] rt 0) (b_parent b) ;;
+        d <- add_node st (TailLoop (jt ++ rt) [] [] (lenN jt)) (b_parent b) ;;
         io <- init_io (fst d) (snd d) (jt ++ rt) ;;
         x <- wire_up (fst io) (snd d) (jw ++ rw) ;;
         y <- exec_region2 body (snd io) (fst x) e ;;
@@ -279,7 +287,7 @@ Section Exec2.
         io <- init_io (new_store (DFG ins [])) 0 ins ;;
         exec_region2 body (snd io) (fst io) e
     | QLoop just rest body =>
-        io <- init_io (new_store (TailLoop just [] rest 0)) 0 (just ++ rest) ;;
+        io <- init_io (new_store (TailLoop (just ++ rest) [] [] (lenN just))) 0 (just ++ rest) ;;
         exec_region2 body (snd io) (fst io) e
     | QCond rows others sumty cs =>
         mk <- make_cases (new_store (Conditional rows others [] sumty)) 0 rows others ;;
